@@ -22,7 +22,9 @@ pub const ADDRS: [&str; 10] = ["4:c0000201:3478", "4:c0000201:3479", "6:20010db8
     // the same again with a non-zero IPv6 flow label, and a global address that differs from ADDRS[2] in the flow label only:
     // SocketAddr equality includes scope id and flow label
     "6:fe800000000000000000000000000001%3.4660:3478", "6:20010db8000000000000000000000001%0.7:3478"];
-pub const TIDS: [u128; 5] = [0x01, 0x0203_0405_0607_0809_0a0b_0c0d, 0xffff_ffff_ffff_ffff_ffff_ffff, 0x2112_a442, 0x7000_0000_0000_0000_0000_0001];
+// the last two differ from TIDS[0] = 1 only above bit 31 / bit 63 (equal low words; equal under a 32-bit xor-fold): ids are 96-bit values
+pub const TIDS: [u128; 7] = [0x01, 0x0203_0405_0607_0809_0a0b_0c0d, 0xffff_ffff_ffff_ffff_ffff_ffff, 0x2112_a442, 0x7000_0000_0000_0000_0000_0001,
+    0x1_0000_0001_0000_0000, 0x8000_0000_0000_0000_0000_0001];
 
 pub fn addr_of(s: &str) -> SocketAddr {
     let p: Vec<&str> = s.split(':').collect();
@@ -208,9 +210,14 @@ impl AgentRun {
             "H" => {
                 let tid = u128::from_str_radix(p[2], 16).unwrap();
                 // <kind>[@<method>]: the method of an incoming message is BINDING unless stated
-                let (kind, meth) = match p[1].split_once('@') {
+                // <kind>[@<method>][+<error code>]: with an error code the message also carries ERROR-CODE, REALM and NONCE
+                let (km, code) = match p[1].split_once('+') {
+                    Some((k, c)) => (k, Some(c.parse::<u16>().unwrap())),
+                    None => (p[1], None),
+                };
+                let (kind, meth) = match km.split_once('@') {
                     Some((k, m)) => (k, u16::from_str_radix(m, 16).unwrap()),
-                    None => (p[1], BINDING),
+                    None => (km, BINDING),
                 };
                 let cls = match kind {
                     "ok" => MessageClass::Success,
@@ -221,6 +228,14 @@ impl AgentRun {
                 let mut b = Message::builder(MessageType::from_class_method(cls, meth), tid.into());
                 let sw = Software::new("peer").unwrap();
                 b.add_attribute(&sw).unwrap();
+                let ec = ErrorCode::new(code.unwrap_or(400), "x").unwrap();
+                let realm = Realm::new("realm").unwrap();
+                let nonce = Nonce::new("nonce").unwrap();
+                if code.is_some() {
+                    b.add_attribute(&ec).unwrap();
+                    b.add_attribute(&realm).unwrap();
+                    b.add_attribute(&nonce).unwrap();
+                }
                 let mut signed_len = 0;
                 if let Some(k) = p[3].strip_prefix("1:") {
                     b.add_message_integrity(&key_creds(k), IntegrityAlgorithm::Sha1).unwrap();
@@ -414,7 +429,10 @@ impl<'a> Gen<'a> {
     fn tid(&mut self) -> usize {
         // a pool of 3 (sometimes 5) ids forces reuse and duplicates
         if self.rng.chance(1, 8) {
-            self.rng.below(5) as usize
+            self.rng.below(TIDS.len() as u64) as usize
+        } else if self.rng.chance(1, 8) {
+            // ids that agree with id #0 in their low words
+            *self.rng.pick(&[0usize, 5, 6])
         } else {
             self.rng.below(3) as usize
         }
@@ -548,6 +566,12 @@ pub fn history(rng: &mut Rng, len: usize, tr: &str, timing: bool) -> String {
                     format!("{}@{:x}", kind, *g.rng.pick(&[0x000u16, 0x002, 0x003, 0x004, 0x800, 0xfff]))
                 } else {
                     kind.to_string()
+                };
+                // error responses in the shape of an authentication challenge (ERROR-CODE 401/438 + REALM + NONCE) and others
+                let kind = if kind.starts_with("err") && g.rng.chance(1, 2) {
+                    format!("{}+{}", kind, *g.rng.pick(&[401u16, 438, 401, 400, 420, 300, 500]))
+                } else {
+                    kind
                 };
                 // response signing: genuine (the agent's remote key), another key, unsigned, corrupted
                 let sign = match g.rng.below(6) {
